@@ -15,7 +15,9 @@
 //! * `T name` parameters by value, `thread T& name` parameters bind the argument's place (exactly that type; not a
 //!   vector component / swizzle: "non-const reference cannot bind to vector element"); an array parameter `T a[n]` is a
 //!   pointer to the caller's array (C++ decay); struct methods run on the object's place
-//! * aggregates `{…}` initialise members / elements in order (no brace elision is needed for what the exporter emits)
+//! * aggregates `{…}` / `T {…}` initialise members / elements in order, with C++ brace elision (a sub-aggregate without
+//!   its own braces takes as many clauses as it has elements: what the struct cast `(S)x` ↦ `S { x, x, … }` relies on);
+//!   a narrowing conversion of a clause (float → int, non-constant int → float / uint, …) is ill-formed inside braces
 //! * built-ins `metal::f(...)` are the uninterpreted functions of `c01/vval.rs` under the name of the HLSL built-in they
 //!   implement (`fract` = frac, `mix` = lerp, `popcount` = countbits, …); `select(a, b, c)` = HLSL `select(c, b, a)`
 #![allow(dead_code)]
@@ -160,6 +162,7 @@ pub const C_VEC_OPERANDS: &str = "metal-vector-operand-types-differ";
 pub const C_CAST: &str = "metal-cast-not-allowed";
 pub const C_BUILTIN_ARGS: &str = "metal-builtin-argument-types";
 pub const C_FLOAT_REM: &str = "metal-remainder-operator-on-floats";
+pub const C_NARROWING: &str = "metal-narrowing-conversion-in-braces";
 
 fn wrap64(n: i128) -> i128 {
     (n as i64) as i128
